@@ -266,7 +266,9 @@ class Printer:
             return self.tok('nt', e, '<' + e[1] + '>')
         if k == 'cmd':
             pad = ' ' if self.layout is None else self.layout.choice(['', ' ', '  ', '\n' if self.multiline else ' '])
-            return self.tok('cmd', e, '{{{' + pad + e[1] + pad + '}}}')
+            # the command ends at the first "}}}": a body ending in "}" needs a separator
+            rpad = pad if not e[1].endswith('}') or pad else ' '
+            return self.tok('cmd', e, '{{{' + pad + e[1] + rpad + '}}}')
         if k == 'opt':
             t = self.tok('[', e, '[')
             self.blank(False)
@@ -317,8 +319,18 @@ class Printer:
                     first = t
             return first
         if k == 'desc':
-            # x "d": x is a unary or a word (never ending in a bare literal)
-            t = self.expr(e[1], 2.9, False)
+            # x "d": x is a unary or a word; a word ending in a bare literal is
+            # parenthesised, otherwise that literal would take the description
+            x = e[1]
+            if x[0] == 'word' and x[1][-1][0] == 'lit' and x[1][-1][2] is None:
+                t = self.tok('(', x, '(')
+                self.blank(False)
+                self.expr(x, -1, False)
+                self.blank(False)
+                self.tok(')', x, ')')
+            else:
+                assert not (x[0] == 'lit' and x[2] is None), 'desc(bare lit) is lit with descr'
+                t = self.expr(x, 2.9, False)
             self.blank(False)
             self.tok('descr', e, enc_descr(e[2]))
             return t
